@@ -1,15 +1,133 @@
 //! C17 — the previous durable image stays intact until the switch-over.
 
 use crate::decode::{self};
+use crate::driver::{Cfg, CommitOpts, Db};
+use crate::model::{MOp, Map};
+use serde::{Deserialize, Serialize};
 use crate::driver::{B3, HK, S2};
 use crate::hist::{history_strategy, CaseInfo, HistParams, History, Obs, Runner, Step, StepOutcome, Violation};
 use crate::iosim::{self, Ev, Kind, Recorder, PAGE};
 use crate::reftrie::HasherKind;
 use crate::runner::{Check, Ctx, Tier};
-use proptest::strategy::{BoxedStrategy, Strategy};
+use proptest::strategy::BoxedStrategy;
 use std::collections::{BTreeMap, BTreeSet};
 
 pub struct C17;
+
+/// Adaptive free-list edge scenario: shape the ln free list so that a commit leaves `k` entries in
+/// the head page while freeing several pages' worth of entries (the decoder tells how many entries
+/// the head page holds; the next commit's allocations are sized accordingly).
+#[derive(Clone, Debug, Serialize, Deserialize, PartialEq, Eq)]
+pub struct EdgeSpec {
+    pub k: u8,
+    pub slack: u8,
+    pub big_pages: u16,
+    pub mid_pages: u16,
+}
+
+#[derive(Clone, Debug, Serialize, Deserialize, PartialEq, Eq)]
+pub struct C17Case {
+    pub hist: History,
+    pub edge: Option<EdgeSpec>,
+}
+
+/// Number of ln pages an overflow value of `size` bytes occupies (from the comment in ops/overflow.rs).
+fn overflow_pages(size: usize) -> usize {
+    let body = 4092usize;
+    let raw = (size + body - 1) / body;
+    if raw <= 15 {
+        return raw;
+    }
+    // bytes incl. the page numbers that do not fit the cell
+    let mut pages = raw;
+    loop {
+        let need = size + (pages - 15) * 4;
+        let p = (need + body - 1) / body;
+        if p <= pages {
+            return pages;
+        }
+        pages = p;
+    }
+}
+
+fn size_for_pages(pages: usize) -> usize {
+    // largest size whose page count is <= pages
+    let (mut lo, mut hi) = (1usize, pages * 4092 + 4092);
+    while lo < hi {
+        let mid = (lo + hi + 1) / 2;
+        if overflow_pages(mid) <= pages {
+            lo = mid;
+        } else {
+            hi = mid - 1;
+        }
+    }
+    lo
+}
+
+fn run_edge<H: HK>(cfg: &Cfg, e: &EdgeSpec, ctx: &Ctx) -> Result<CaseInfo, Violation> {
+    let v = |step: usize, m: String| Violation { step, msg: m };
+    let mut info = CaseInfo::default();
+    let rec = Recorder::install();
+    rec.unwatch();
+    let mut cfg = cfg.clone();
+    cfg.rollback = false;
+    let dir = ctx.scratch.dir(cfg.fs);
+    let db = Db::<H>::open(&dir, &cfg).map_err(|f| v(0, f.sig()))?;
+    let mut model = Map::new();
+    let key = |b: u8| -> crate::util::Key {
+        let mut k = [b; 32];
+        k[31] = 1;
+        k
+    };
+    let commit = |db: &Db<H>, model: &mut Map, batch: Vec<(crate::util::Key, MOp)>, step: usize, judge_it: bool, info: &mut CaseInfo| -> Result<(), Violation> {
+        let old = if judge_it {
+            let img = iosim::read_dir_image(&dir).map_err(|e| v(step, format!("INFRA: {e}")))?;
+            Some(old_image(&img).map_err(|m| v(step, format!("on-disk image before the step is not well-formed: {m}")))?)
+        } else {
+            None
+        };
+        if judge_it {
+            rec.watch(&dir, None);
+        }
+        let r = db.commit_batch(model, &batch, &CommitOpts::default());
+        let tr = rec.take();
+        rec.unwatch();
+        r.map_err(|f| v(step, f.sig()))?;
+        *model = crate::model::apply(H::KIND, model, &batch);
+        if let Some(old) = old {
+            judge(&old, &tr, info).map_err(|m| v(step, m))?;
+        }
+        Ok(())
+    };
+    let val = |k: &crate::util::Key, pages: usize| std::sync::Arc::new(crate::util::value_bytes(k, 1, size_for_pages(pages)));
+    let (a, b, c) = (key(0x11), key(0x77), key(0xcc));
+    commit(&db, &mut model, vec![(a, MOp::Write(Some(val(&a, e.big_pages as usize)))), (b, MOp::Write(Some(val(&b, e.mid_pages as usize))))], 0, false, &mut info)?;
+    commit(&db, &mut model, vec![(b, MOp::Write(None))], 1, true, &mut info)?;
+    // how many entries does the head free-list page hold?
+    let img = iosim::read_dir_image(&dir).map_err(|e| v(2, format!("INFRA: {e}")))?;
+    let d = decode::decode_image(&img).map_err(|m| v(2, format!("on-disk image is not well-formed: {m}")))?;
+    let meta = d.meta.clone().unwrap();
+    let head = img.get("ln").and_then(|c| c.read_page(meta.ln_freelist_pn as u64)).map(|p| u16::from_le_bytes(p[4..6].try_into().unwrap()) as usize).unwrap_or(0);
+    info.max("max_free_list_pages_ln", d.ln_free.list_pages.len() as u64);
+    info.add("edge_head_entries", head as u64);
+    let want_pages = head.saturating_sub(e.k as usize + e.slack as usize);
+    let mut batch = vec![(a, MOp::Write(None))];
+    if want_pages >= 1 {
+        batch.push((c, MOp::Write(Some(val(&c, want_pages)))));
+    }
+    batch.sort_by(|x, y| x.0.cmp(&y.0));
+    commit(&db, &mut model, batch, 2, true, &mut info)?;
+    // and the resulting image must still be exact
+    crate::hist::decode_check::<H>(&dir, &model).map_err(|m| v(3, m))?;
+    let img = iosim::read_dir_image(&dir).map_err(|e| v(3, format!("INFRA: {e}")))?;
+    let d = decode::decode_image(&img).map_err(|m| v(3, m))?;
+    decode::check_partition(&d).map_err(|m| v(3, format!("allocation: {m}")))?;
+    db.close().map_err(|f| v(3, f.sig()))?;
+    crate::hist::rm(&dir);
+    info.bump("free_list_edge_scenarios");
+    info.nontrivial = d.ln_free.list_pages.len() >= 2 || head > 0;
+    Ok(info)
+}
 
 struct OldImage {
     live_ln: BTreeSet<u32>,
@@ -19,6 +137,9 @@ struct OldImage {
     /// per rollback segment: (offset just past the last live record, holds a live record)
     segs: BTreeMap<String, (u64, bool)>,
     free_ln: usize,
+    ln_kind: BTreeMap<u32, &'static str>,
+    bbn_list_pages: BTreeSet<u32>,
+    img: iosim::DirImage,
 }
 
 fn old_image(img: &iosim::DirImage) -> Result<OldImage, String> {
@@ -58,7 +179,20 @@ fn old_image(img: &iosim::DirImage) -> Result<OldImage, String> {
         }
         segs.insert(name.clone(), (last_live_end, holds_live));
     }
+    let mut ln_kind: BTreeMap<u32, &'static str> = BTreeMap::new();
+    for p in &d.ln_live {
+        ln_kind.insert(*p, if d.leaf_pages.contains(p) { "a live leaf" } else { "a live overflow page" });
+    }
+    for p in &d.ln_free.list_pages {
+        ln_kind.insert(*p, "a free-list page");
+    }
+    for p in &d.bbn_free.list_pages {
+        let _ = p;
+    }
     Ok(OldImage {
+        bbn_list_pages: d.bbn_free.list_pages.iter().cloned().collect(),
+        img: img.clone(),
+        ln_kind,
         live_ln,
         ln_bump: meta.ln_bump,
         live_bbn,
@@ -107,8 +241,39 @@ fn judge(old: &OldImage, tr: &[Ev], info: &mut CaseInfo) -> Result<(), String> {
                         for pn in first..=last {
                             if pn < bump {
                                 if live.contains(&pn) {
+                                    // rewriting a page with byte-identical content does not alter the old image
+                                    let rel = (pn as u64 * PAGE as u64).saturating_sub(*off) as usize;
+                                    let same = old
+                                        .img
+                                        .get(class)
+                                        .and_then(|c| c.read_page(pn as u64))
+                                        .map_or(false, |p| {
+                                            if rel + PAGE > data.len() {
+                                                return false;
+                                            }
+                                            let newp = &data[rel..rel + PAGE];
+                                            if class == "ln" && old.ln_kind.get(&pn) == Some(&"a free-list page") || class == "bbn" && old.bbn_list_pages.contains(&pn) {
+                                                // free-list page: only prev, count and the listed entries are meaningful
+                                                let n = 6 + 4 * u16::from_le_bytes(p[4..6].try_into().unwrap()) as usize;
+                                                n <= PAGE && p[..n] == newp[..n]
+                                            } else {
+                                                p == newp
+                                            }
+                                        });
+                                    if same {
+                                        info.bump("identical_rewrites_of_live_pages");
+                                        continue;
+                                    }
+                                    if std::env::var_os("VERIF_DEBUG").is_some() {
+                                        let oldp = old.img.get(class).and_then(|c| c.read_page(pn as u64)).map(|p| p.to_vec()).unwrap_or_default();
+                                        let newp = &data[rel..rel + PAGE];
+                                        let d = |p: &[u8]| format!("prev={} count={} first={:?}", u32::from_le_bytes(p[0..4].try_into().unwrap()), u16::from_le_bytes(p[4..6].try_into().unwrap()), (0..6).map(|i| u32::from_le_bytes(p[6 + i * 4..10 + i * 4].try_into().unwrap())).collect::<Vec<_>>());
+                                        eprintln!("DBG old page {pn}: {}", d(&oldp));
+                                        eprintln!("DBG new page {pn}: {}", d(newp));
+                                    }
+                                    let kind = if class == "ln" { old.ln_kind.get(&pn).copied().unwrap_or("in use") } else { "a branch node or free-list page" };
                                     return Err(format!(
-                                        "write to {class} page {pn} before the switch-over: the page is in use by the previously committed state (bump {bump})"
+                                        "write to {class} page {pn} before the switch-over: the page is {kind} of the previously committed state (bump {bump})"
                                     ));
                                 }
                                 if pn == 0 {
@@ -210,7 +375,7 @@ fn run_case<H: HK>(hist: &History, ctx: &Ctx) -> Result<CaseInfo, Violation> {
 }
 
 impl Check for C17 {
-    type Case = History;
+    type Case = C17Case;
     const ID: &'static str = "C17";
     const LEVEL: &'static str = "fault_enumeration";
     fn rule() -> String {
@@ -228,8 +393,13 @@ impl Check for C17 {
     fn cases(tier: Tier) -> u32 {
         tier.pick(1600, 16000)
     }
-    fn strategy(tier: Tier) -> BoxedStrategy<History> {
-        history_strategy(HistParams {
+    fn strategy(tier: Tier) -> BoxedStrategy<C17Case> {
+        use proptest::prelude::*;
+        let edge = prop::option::weighted(
+            0.04,
+            (1u8..=5, 0u8..=3, 3300u16..=5400, 1300u16..=2300).prop_map(|(k, slack, big_pages, mid_pages)| EdgeSpec { k, slack, big_pages, mid_pages }),
+        );
+        let h = history_strategy(HistParams {
             max_steps: tier.pick(9, 18),
             max_entries: tier.pick(30, 60),
             bulk_n: tier.pick(500, 2500),
@@ -240,16 +410,21 @@ impl Check for C17 {
             overlay_weight: 20,
             witness_weight: 0.0,
             ext4_weight: 3,
-        })
-        .boxed()
+        });
+        (h, edge).prop_map(|(hist, edge)| C17Case { hist, edge }).boxed()
     }
-    fn run(case: &History, ctx: &Ctx) -> Result<CaseInfo, Violation> {
-        match case.cfg.hasher {
-            HasherKind::Blake3 => run_case::<B3>(case, ctx),
-            HasherKind::Sha2 => run_case::<S2>(case, ctx),
+    fn run(case: &C17Case, ctx: &Ctx) -> Result<CaseInfo, Violation> {
+        match (&case.edge, case.hist.cfg.hasher) {
+            (Some(e), HasherKind::Blake3) => run_edge::<B3>(&case.hist.cfg, e, ctx),
+            (Some(e), HasherKind::Sha2) => run_edge::<S2>(&case.hist.cfg, e, ctx),
+            (None, HasherKind::Blake3) => run_case::<B3>(&case.hist, ctx),
+            (None, HasherKind::Sha2) => run_case::<S2>(&case.hist, ctx),
         }
     }
-    fn brief(case: &History) -> String {
-        case.brief()
+    fn brief(case: &C17Case) -> String {
+        match &case.edge {
+            Some(e) => format!("free-list edge scenario {e:?} cfg[{}]", case.hist.cfg.brief()),
+            None => case.hist.brief(),
+        }
     }
 }
